@@ -548,7 +548,7 @@ M('C11','set-add-nolock','ds/set_impl.go','''func (s *set[ElementType]) Add(elem
 	s.applyMutex.RLock()
 	defer s.applyMutex.RUnlock()
 ''','''func (s *set[ElementType]) Add(element ElementType) bool {
-''','set/apply-mutex-protocol ds.set.Add')
+''','set/apply-mutex-protocol set.readableSet in ds.set.Add')
 M('C11','set-apply-rlock','ds/set_impl.go','''func (s *set[ElementType]) Apply(mutations SetMutations[ElementType]) (appliedMutations SetMutations[ElementType]) {
 	s.applyMutex.Lock()
 	defer s.applyMutex.Unlock()''','''func (s *set[ElementType]) Apply(mutations SetMutations[ElementType]) (appliedMutations SetMutations[ElementType]) {
